@@ -6,6 +6,7 @@ import (
 	"crypto/ed25519"
 	"crypto/elliptic"
 	crand "crypto/rand"
+	"crypto/sha256"
 	"crypto/tls"
 	"crypto/x509"
 	"crypto/x509/pkix"
@@ -152,6 +153,10 @@ var variants = []string{
 	"ext-wrong-prefix", "ext-no-prefix",
 	"ext-missing", "ext-other-oid", "ext-empty", "ext-not-asn1", "ext-truncated", "ext-byte-flipped", "ext-duplicated",
 	"signed-by-other-key-same-name", "signed-by-ca",
+	// not self-signed in every flavour the DER allows (the signature algorithm identifiers / the signature value are rewritten at the ASN.1 level)
+	"notself-unknown-alg", "notself-unknown-alg-tbs-resigned", "notself-unknown-alg-outer-only", "notself-unknown-alg-inner-only", "notself-two-unknown-algs",
+	"notself-refused-alg", "notself-other-known-alg", "notself-other-known-alg-tbs-resigned",
+	"selfsig-bit-flipped", "selfsig-empty", "selfsig-truncated", "selfsig-zeroed", "selfsig-of-other-cert",
 	"expired", "not-yet-valid",
 	"chain-empty", "chain-two-distinct", "chain-two-same", "chain-valid-plus-garbage", "chain-garbage",
 }
@@ -242,6 +247,75 @@ func build(spec chainSpec, pool []*keys.Identity, rng *rand.Rand) *builtChain {
 		ca.IsCA, ca.BasicConstraintsValid, ca.KeyUsage = true, true, x509.KeyUsageCertSign
 		t := tmpl(rng, "leaf", nb, na, ext(good))
 		b.Raw, b.Why = [][]byte{mustCreate(t, ca, pub, caKey.priv)}, "certificate issued and signed by another key (not self-signed)"
+	case "notself-unknown-alg", "notself-unknown-alg-tbs-resigned", "notself-unknown-alg-outer-only", "notself-unknown-alg-inner-only", "notself-two-unknown-algs",
+		"notself-refused-alg", "notself-other-known-alg", "notself-other-known-alg-tbs-resigned":
+		// issuer = subject, valid binding for the TLS key, but the certificate signature was made by an unrelated key;
+		// then the signatureAlgorithm identifiers are rewritten
+		signer := newCertKey(spec.CertKey, rng)
+		t := tmpl(rng, "", nb, na, ext(good))
+		base := mustCreate(t, t, pub, signer.priv)
+		list, what := unknownAlgOIDs, "an OID crypto/x509 does not know"
+		switch spec.Variant {
+		case "notself-refused-alg":
+			list, what = refusedAlgOIDs, "an MD2/MD5/SHA-1/DSA based algorithm crypto/x509 refuses to verify"
+		case "notself-other-known-alg", "notself-other-known-alg-tbs-resigned":
+			list, what = otherKnownAlgOIDs, "another algorithm crypto/x509 knows"
+		}
+		oid := list[spec.Pos%len(list)]
+		if oid == nil {
+			oid = asn1.ObjectIdentifier{2, 999, 1 + spec.Pos%100000, 1 + spec.Pos%7} // an arc nobody assigned
+		}
+		inner, outer := algID(oid), algID(oid)
+		var resign crypto.Signer
+		where := "both signatureAlgorithm identifiers"
+		switch spec.Variant {
+		case "notself-unknown-alg-outer-only":
+			inner, where = nil, "the outer signatureAlgorithm identifier only (the identifiers mismatch)"
+		case "notself-unknown-alg-inner-only":
+			outer, where = nil, "the signatureAlgorithm identifier inside the TBS only (the identifiers mismatch)"
+		case "notself-two-unknown-algs":
+			o2 := unknownAlgOIDs[(spec.Pos/len(list))%(len(list)-1)]
+			if o2.Equal(oid) {
+				o2 = unknownAlgOIDs[(spec.Pos/len(list)+1)%(len(list)-1)]
+			}
+			outer, where = algID(o2), "both signatureAlgorithm identifiers (two different unknown OIDs, outer "+o2.String()+")"
+		case "notself-unknown-alg-tbs-resigned", "notself-other-known-alg-tbs-resigned":
+			resign, where = signer.priv, "both signatureAlgorithm identifiers, the rewritten TBS signed again by the unrelated key"
+		}
+		b.Raw = [][]byte{rewriteCert(base, inner, outer, func(tbs, old []byte) []byte {
+			if resign == nil {
+				return old
+			}
+			return signTBS(resign, tbs)
+		})}
+		b.Why = fmt.Sprintf("issuer = subject and a valid key binding, but the certificate signature was made by an unrelated key (not self-signed); %s rewritten to %s (%s)", where, what, oid.String())
+	case "selfsig-bit-flipped", "selfsig-empty", "selfsig-truncated", "selfsig-zeroed", "selfsig-of-other-cert":
+		// a genuinely self-signed certificate whose signature value is then damaged / exchanged: no valid self-signature
+		base := self(ext(good))
+		other := self(ext(good)) // same key, same binding, other serial: its signature does not cover base's TBS
+		b.Raw = [][]byte{rewriteCert(base, nil, nil, func(tbs, old []byte) []byte {
+			switch spec.Variant {
+			case "selfsig-bit-flipped":
+				v := append([]byte(nil), old...)
+				i := spec.Pos % len(v)
+				v[i] ^= byte(1 << (spec.Pos / len(v) % 8))
+				b.Why = fmt.Sprintf("self-signed certificate with one bit of the signature value flipped (byte %d of %d)", i, len(v))
+				return v
+			case "selfsig-empty":
+				b.Why = "self-signed certificate whose signature value was replaced by an empty bit string"
+				return nil
+			case "selfsig-truncated":
+				n := spec.Pos % len(old)
+				b.Why = fmt.Sprintf("self-signed certificate whose signature value was truncated to %d of %d bytes", n, len(old))
+				return old[:n]
+			case "selfsig-zeroed":
+				b.Why = "self-signed certificate whose signature value was overwritten with zero bytes"
+				return make([]byte, len(old))
+			default:
+				b.Why = "certificate carrying the (valid) self-signature of ANOTHER certificate over the same key"
+				return certSignature(other)
+			}
+		})}
 	case "expired":
 		t := tmpl(rng, "", now.Add(-48*time.Hour), now.Add(-24*time.Hour), ext(good))
 		b.Raw, b.Class, b.Why = [][]byte{mustCreate(t, t, pub, ck.priv)}, keyOnly, "valid binding, certificate expired (acceptance not judged)"
@@ -272,6 +346,166 @@ func build(spec chainSpec, pool []*keys.Identity, rng *rand.Rand) *builtChain {
 		b.TLS = &tls.Certificate{Certificate: b.Raw, PrivateKey: leafKey}
 	}
 	return b
+}
+
+// ---- signature algorithm identifiers used by the rewritten certificates
+
+var (
+	// not implemented by crypto/x509 (nil = an unassigned arc made from the position)
+	unknownAlgOIDs = []asn1.ObjectIdentifier{
+		{1, 2, 840, 10045, 4, 3, 9},       // unassigned member of the ecdsa-with-SHA2 arc
+		{1, 2, 840, 10045, 4, 3, 1},       // ecdsa-with-SHA224
+		{1, 2, 840, 113549, 1, 1, 99},     // unassigned member of the PKCS#1 arc
+		{1, 2, 840, 113549, 1, 1, 14},     // sha224WithRSAEncryption
+		{1, 3, 101, 113},                  // Ed448
+		{1, 2, 156, 10197, 1, 501},        // SM2 with SM3
+		{2, 16, 840, 1, 101, 3, 4, 3, 10}, // ecdsa-with-SHA3-256
+		{1, 3, 6, 1, 4, 1, 53594, 9, 9},   // private arc
+		nil,
+	}
+	// known to crypto/x509 but refused for verification (or never implemented: DSA)
+	refusedAlgOIDs = []asn1.ObjectIdentifier{
+		{1, 2, 840, 113549, 1, 1, 2},     // md2WithRSAEncryption
+		{1, 2, 840, 113549, 1, 1, 4},     // md5WithRSAEncryption
+		{1, 2, 840, 113549, 1, 1, 5},     // sha1WithRSAEncryption
+		{1, 3, 14, 3, 2, 29},             // sha1WithRSA (ISO)
+		{1, 2, 840, 10045, 4, 1},         // ecdsa-with-SHA1
+		{1, 2, 840, 10040, 4, 3},         // dsa-with-sha1
+		{2, 16, 840, 1, 101, 3, 4, 3, 2}, // dsa-with-sha256
+	}
+	// implemented by crypto/x509
+	otherKnownAlgOIDs = []asn1.ObjectIdentifier{
+		{1, 2, 840, 10045, 4, 3, 2},   // ecdsa-with-SHA256
+		{1, 2, 840, 10045, 4, 3, 3},   // ecdsa-with-SHA384
+		{1, 2, 840, 10045, 4, 3, 4},   // ecdsa-with-SHA512
+		{1, 2, 840, 113549, 1, 1, 11}, // sha256WithRSAEncryption
+		{1, 2, 840, 113549, 1, 1, 10}, // RSASSA-PSS (without parameters)
+		{1, 3, 101, 112},              // Ed25519
+	}
+)
+
+// algID marshals an AlgorithmIdentifier (NULL parameters for the RSA PKCS#1 v1.5 family, none otherwise).
+func algID(oid asn1.ObjectIdentifier) []byte {
+	ai := pkix.AlgorithmIdentifier{Algorithm: oid}
+	rsaArc := asn1.ObjectIdentifier{1, 2, 840, 113549, 1, 1}
+	if (len(oid) == 7 && oid[:6].Equal(rsaArc) && oid[6] != 10) || oid.Equal(asn1.ObjectIdentifier{1, 3, 14, 3, 2, 29}) {
+		ai.Parameters = asn1.NullRawValue
+	}
+	out, err := asn1.Marshal(ai)
+	if err != nil {
+		panic(err)
+	}
+	return out
+}
+
+// ---- a minimal DER reader / writer (single-byte tags, definite lengths: all a certificate uses)
+
+type tlv struct {
+	tag     byte
+	content []byte
+	raw     []byte
+}
+
+func derSplit(b []byte) []tlv {
+	var out []tlv
+	for len(b) > 0 {
+		if len(b) < 2 {
+			panic("harness: short DER")
+		}
+		n, hdr := int(b[1]), 2
+		if b[1]&0x80 != 0 {
+			k := int(b[1] & 0x7f)
+			if k == 0 || k > 3 || len(b) < 2+k {
+				panic("harness: unsupported DER length")
+			}
+			n = 0
+			for _, c := range b[2 : 2+k] {
+				n = n<<8 | int(c)
+			}
+			hdr = 2 + k
+		}
+		if len(b) < hdr+n {
+			panic("harness: truncated DER")
+		}
+		out = append(out, tlv{tag: b[0], content: b[hdr : hdr+n], raw: b[:hdr+n]})
+		b = b[hdr+n:]
+	}
+	return out
+}
+
+func derEnc(tag byte, content []byte) []byte {
+	out := []byte{tag}
+	switch n := len(content); {
+	case n < 0x80:
+		out = append(out, byte(n))
+	case n < 0x100:
+		out = append(out, 0x81, byte(n))
+	case n < 0x10000:
+		out = append(out, 0x82, byte(n>>8), byte(n))
+	default:
+		out = append(out, 0x83, byte(n>>16), byte(n>>8), byte(n))
+	}
+	return append(out, content...)
+}
+
+// rewriteCert re-marshals a certificate with the signatureAlgorithm identifier
+// inside the TBS (inner) and / or next to the signature (outer) replaced (nil =
+// kept) and the signature value replaced by sig(new TBS DER, old signature bytes).
+func rewriteCert(der, inner, outer []byte, sig func(tbs, old []byte) []byte) []byte {
+	top := derSplit(der)
+	if len(top) != 1 || top[0].tag != 0x30 {
+		panic("harness: not a certificate")
+	}
+	kids := derSplit(top[0].content)
+	if len(kids) != 3 || kids[0].tag != 0x30 || kids[1].tag != 0x30 || kids[2].tag != 0x03 || len(kids[2].content) < 1 {
+		panic("harness: unexpected certificate layout")
+	}
+	tk := derSplit(kids[0].content)
+	idx := 1
+	if tk[0].tag == 0xa0 { // explicit version
+		idx = 2
+	}
+	if tk[idx].tag != 0x30 {
+		panic("harness: unexpected TBS layout")
+	}
+	var tbsContent []byte
+	for i, k := range tk {
+		if i == idx && inner != nil {
+			tbsContent = append(tbsContent, inner...)
+		} else {
+			tbsContent = append(tbsContent, k.raw...)
+		}
+	}
+	tbs := derEnc(0x30, tbsContent)
+	alg := kids[1].raw
+	if outer != nil {
+		alg = outer
+	}
+	newSig := sig(tbs, kids[2].content[1:])
+	body := append(append(append([]byte(nil), tbs...), alg...), derEnc(0x03, append([]byte{0}, newSig...))...)
+	return derEnc(0x30, body)
+}
+
+// certSignature returns the signature value of a certificate.
+func certSignature(der []byte) []byte {
+	kids := derSplit(derSplit(der)[0].content)
+	return append([]byte(nil), kids[2].content[1:]...)
+}
+
+// signTBS signs a TBS with the key's usual algorithm (ECDSA / SHA-256 resp. pure Ed25519).
+func signTBS(k crypto.Signer, tbs []byte) []byte {
+	var sig []byte
+	var err error
+	if _, ok := k.(ed25519.PrivateKey); ok {
+		sig, err = k.Sign(crand.Reader, tbs, crypto.Hash(0))
+	} else {
+		d := sha256.Sum256(tbs)
+		sig, err = k.Sign(crand.Reader, d[:], crypto.SHA256)
+	}
+	if err != nil {
+		panic(err)
+	}
+	return sig
 }
 
 func tlsCert(raw [][]byte, leaf crypto.Signer) *tls.Certificate {
